@@ -17,9 +17,17 @@
      - C18_*_calls_partial (kept): the per-component counts for CO and ST, for arbitrary oracles.
    Every model function is structurally recursive on its fuel or on a list, so every model run
    terminates.
-   NOT proved: that the replay driver's fuel (2 * number of recorded answers + 12, a function of
-   the calls actually made, not of the bound) is never exhausted; this stays a measured property
-   of every run.  That the Rust code behaves like Model.Solvers is the tie.
+     - C18_replay_fuel_suffices: the replay driver (driver/d_static.ml) runs the model with the
+       recorded answers as oracle ([script_oracle script]: the i-th answer consumed is the i-th
+       recorded one, Unknown - which aborts - beyond the script) and fuel 2 * length script + 12.
+       With this fuel NO model run ends OutOfFuel, for EVERY script (valid or not, of any length),
+       every view (good or not), every entry point.  C18_replay_fuel_general: fuel >= length
+       script + 2 is enough, from every start state (the fuel is per loop; every iteration of
+       compute_maximal / pr_ds_loop / rg_loop / id_enum_loop consumes an answer except the one
+       leaving MInit and the last one of compute_maximal).  C18_replay_fuel_seq: the same for the
+       driver's two-queries-in-sequence mode.  C18_replay_fuel_tight: length script + 2 cannot
+       be lowered (one argument, PR-SE, script [Unsat], fuel 2: OutOfFuel; fuel 3: Done).
+   NOT proved: that the Rust code behaves like Model.Solvers (this is the tie).
    Vocabulary of the whole-framework theorems (Proofs/TopBase.v, TopMax.v, SolverTop.v):
      view_good g F   the view g (iteration orders of an AAFramework) presents the framework F;
                      instances: view_of_af of any compact framework, view_of_fw of any store
@@ -34,6 +42,7 @@
 From Crusta Require Import Spec.AF Sat.Cnf Sat.Prog Model.Encoders Model.Graph Model.Solvers.
 From Crusta Require Import Proofs.CallBounds Proofs.Decomp Proofs.SolverBasics.
 From Crusta Require Import Proofs.TopBase Proofs.TopMax Proofs.SolverTop.
+From Crusta Require Proofs.TopGaps.
 Open Scope prog_scope.
 
 Theorem C18_stable_component_calls_partial : forall oracle thr c in_cc pol s,
@@ -79,8 +88,45 @@ Theorem C18_terminates_sum : forall oracle thr g F,
   end.
 Proof. exact SolverTop.top_terminates_sum. Qed.
 
+Theorem C18_replay_fuel_suffices : forall script thr d s q cert e g al,
+  match run d (run_query (script_oracle script) thr (2 * length script + 12) s q cert e g al) with
+  | OutOfFuel _ => False
+  | _ => True
+  end.
+Proof. exact TopGaps.replay_fuel_suffices. Qed.
+
+Theorem C18_replay_fuel_general : forall script thr fuel s q cert e g al st0,
+  length script + 2 <= fuel ->
+  match run_query (script_oracle script) thr fuel s q cert e g al st0 with
+  | OutOfFuel _ => False
+  | _ => True
+  end.
+Proof. exact TopGaps.replay_fuel_general. Qed.
+
+Theorem C18_replay_fuel_seq : forall script thr d s1 q1 cert1 e1 g1 al1 s q cert e g al,
+  let fuel := 2 * length script + 12 in
+  match run d (bind (run_query (script_oracle script) thr fuel s1 q1 cert1 e1 g1 al1)
+                    (fun _ => run_query (script_oracle script) thr fuel s q cert e g al)) with
+  | OutOfFuel _ => False
+  | _ => True
+  end.
+Proof. exact TopGaps.replay_fuel_suffices_seq. Qed.
+
+Theorem C18_replay_fuel_tight :
+  let script := [Unsat] in
+  let g := view_of_af (compact 1 []) in
+  (exists st', run CadicalLike (run_query (script_oracle script) 1 (length script + 1) PR QSE false
+                                 AuxCo g []) = OutOfFuel st') /\
+  (exists st', run CadicalLike (run_query (script_oracle script) 1 (length script + 2) PR QSE false
+                                 AuxCo g []) = Done (OExt (Some [0])) st').
+Proof. exact TopGaps.replay_fuel_tight. Qed.
+
 Print Assumptions C18_stable_component_calls_partial.
 Print Assumptions C18_complete_query_calls_partial.
 Print Assumptions C18_call_bound.
 Print Assumptions C18_terminates.
 Print Assumptions C18_terminates_sum.
+Print Assumptions C18_replay_fuel_suffices.
+Print Assumptions C18_replay_fuel_general.
+Print Assumptions C18_replay_fuel_seq.
+Print Assumptions C18_replay_fuel_tight.
